@@ -843,7 +843,7 @@ class MasterSchemaRow:
         if remaining_sql_command[0] == "[":
 
             # The table name or index name is surrounded by brackets
-            match_object = match(r"^\[(.*?)\]", remaining_sql_command)
+            match_object = match(r"^\[([^\]]*)\]", remaining_sql_command)
 
             if not match_object:
                 log_message = "No bracket match found for {} name in sql for {} row name: {} and sql: {}."
